@@ -319,6 +319,6 @@ int read_macho(
   memory->low_address  = start;
   memory->high_address = end;
 
-  return start;
+  return 0;
 }
 
